@@ -1,4 +1,6 @@
 import AlgopyVerif.Proofs.Tape
+import AlgopyVerif.Proofs.LineDeriv
+import AlgopyVerif.Proofs.Jet
 /-!
 # C04 — graph derivative drivers return the derivatives at the requested point
 
@@ -15,7 +17,13 @@ Second-order drivers (`hessian, hess_vec, vec_hess, vec_hess_vec`) and `jacobian
 identity over `A = R[t]/(t^D)`: the order-1 coefficient of `xbar` under first-order seeding.  Their
 index arithmetic (`init_jacobian` seeding, `(D, M·P)` replication and reshape) is checked on the
 implementation against forward-mode derivatives and exact analytic derivatives of polynomial
-programs (C04 run) — partial: no theorem for the slicing.
+programs (C04 run).  What the order-1 coefficient *is* is a theorem at program level
+(`second_order_driver_coefficient`, `second_order_from_jet`): for every `F : ℝᴺ → ℝ` that is `C²` at `x`, the first
+Taylor coefficient of the gradient entry `t ↦ ∂F/∂x_j (x + t v)` is `Σ_i ∂²F/∂x_j∂x_i · v_i` — with `v = e_p` the
+Hessian row (`hessian`), with general `v` the Hessian-vector product (`hess_vec`, and `vec_hess` by symmetry of
+the Hessian); the order-0 coefficient is the gradient entry itself.  The sweep over `A = ℝ[t]/(t²)` returns the
+jet of the gradient by `vec_jac_spec` over `A` and the `JetOf` closure of C01.  Partial: no theorem for the
+`(D, M·P)` replication / reshape index arithmetic of `jacobian`, `vec_hess_vec`.
 -/
 open AV.Tape
 namespace AV.C04
@@ -41,5 +49,32 @@ theorem gradient_spec (n out : Nat) (hout : out < n) (tape : List (Instr A)) (h 
 /-- `vec_jac(w, x)`: any weight vector on the outputs -/
 theorem vec_jac_spec (n : Nat) (tape : List (Instr A)) (h dh w : Heap A) (hw : WF n tape h dh) :
     pair n (rev tape h w) dh = pair n w (tan tape h dh) := tape_adjoint n tape h dh w hw
+
+/-! ## second-order drivers: the order-1 coefficient of the gradient along `x + t v` -/
+section second
+variable {N : ℕ}
+
+/-- `hessian` (`v = e_p`), `hess_vec`, `vec_hess`: `[t¹] ∂F/∂x_j (x + t v) = (∇²F(x) v)_j` -/
+theorem second_order_driver_coefficient (F : (Fin N → ℝ) → ℝ) (x v : Fin N → ℝ) (hF : ContDiffAt ℝ 2 F x) (j : Fin N) :
+    tc (fun t => gradAt F (line x v t) j) 1 = ∑ i, hessAt F x j i * v i := tc_grad_line_one F x v hF j
+
+/-- Hessian row: seeding direction `e_p` returns `∂²F/∂x_j∂x_p` -/
+theorem hessian_driver_entry (F : (Fin N → ℝ) → ℝ) (x : Fin N → ℝ) (hF : ContDiffAt ℝ 2 F x) (p j : Fin N) :
+    tc (fun t => gradAt F (line x (Pi.single p 1) t) j) 1 = hessAt F x j p := by
+  rw [tc_grad_line_one F x _ hF j, Finset.sum_eq_single p]
+  · simp
+  · intro b _ hb; simp [Pi.single_apply, hb]
+  · intro h; exact absurd (Finset.mem_univ p) h
+
+/-- composition with C01 / C03: an adjoint coefficient list that is the jet of the gradient entry along the
+seeded line (what the reverse sweep over `ℝ[t]/(t^D)` computes) carries the gradient at order 0 and the
+Hessian-vector product at order 1 -/
+theorem second_order_from_jet (F : (Fin N → ℝ) → ℝ) (x v : Fin N → ℝ) (hF : ContDiffAt ℝ 2 F x) (j : Fin N)
+    (xbar : List ℝ) (hl : 1 < xbar.length) (hj : JetOf xbar (fun t => gradAt F (line x v t) j)) :
+    co xbar 0 = gradAt F x j ∧ co xbar 1 = ∑ i, hessAt F x j i * v i := by
+  refine ⟨?_, ?_⟩
+  · rw [hj.coeff 0 (by omega), tc_zero, line_zero]
+  · rw [hj.coeff 1 hl]; exact tc_grad_line_one F x v hF j
+end second
 
 end AV.C04
